@@ -128,6 +128,26 @@ def is_axis_step(n):
     return False
 
 
+def leftmost_is_root(n):
+    return n[0] in ('root', 'rootonly') or (n[0] == 'path' and leftmost_is_root(n[2]))
+
+
+def is_step1(n):
+    """XPath 1.0 Step ::= AxisSpecifier NodeTest Predicate* | AbbreviatedStep"""
+    if n[0] in ('dot', 'parent'):
+        return True
+    if n[0] == 'pred':
+        return n[1][0] not in ('dot', 'parent') and is_axis_step(n[1])
+    return n[0] in AXIS_STEP_HEADS
+
+
+def is_relpath1(n):
+    """XPath 1.0 RelativeLocationPath"""
+    if n[0] == 'path':
+        return is_relpath1(n[2]) and is_step1(n[3])
+    return is_step1(n)
+
+
 def node_level(n, ver):
     """Name of the EBNF level a node belongs to (the production that derives it without parentheses)."""
     h = n[0]
@@ -281,13 +301,17 @@ class Renderer:
                 lt, ls = self.wrap(lt, ls)
             return lt + [op] + rt, ['bin', op, ls, rs]
         if h == 'path':
+            if ver == '1.0' and (not is_step1(n[3]) or (abs1 and not is_relpath1(n[2]))):
+                raise ValueError(f'not an XPath 1.0 location path: {n!r}')
             lt, ls = self.sub(n[2], 'path', allow_paren=not abs1, abs1=abs1)
             rt, rs = self.sub(n[3], 'step', allow_paren=ver != '1.0')
             return lt + [n[1]] + rt, ['path', n[1], ls, rs]
         if h == 'root':
+            if ver == '1.0' and not is_relpath1(n[2]):
+                raise ValueError(f'not an XPath 1.0 location path: {n!r}')
             rt, rs = self.sub(n[2], 'path', allow_paren=ver != '1.0', abs1=ver == '1.0')
-            if n[2][0] == 'root' and rt[0] != '(':
-                rt, rs = self.wrap(rt, rs)
+            if leftmost_is_root(n[2]) and rt[0] != '(':
+                rt, rs = self.wrap(rt, rs)      # "/" RelativePathExpr: the relative path cannot start with a slash
             return [n[1]] + rt, ['root', n[1], rs]
         if h == 'neg':
             t, s = self.sub(n[2], 'unary')
@@ -1235,3 +1259,68 @@ def nesting_depth(s):
         else:
             run = 0
     return best + bestrun
+
+
+# --------------------------------------------------------------------------
+# Exhaustive operator-pair space: every operator form of a version nested in every operand slot of every other
+# --------------------------------------------------------------------------
+def operator_forms(ver):
+    """[(label, nslots, build(operands) -> AST)] : the operator forms of the version, one per operator symbol"""
+    forms = []
+
+    def add(label, n, fn):
+        forms.append((label, n, fn))
+    for op in sorted(BINOPS[ver]):
+        add('bin:' + op, 2, lambda o, op=op: ['bin', op, o[0], o[1]])
+    for op in ('/', '//'):
+        add('path:' + op, 2, lambda o, op=op: ['path', op, o[0], o[1]])
+        add('root:' + op, 1, lambda o, op=op: ['root', op, o[0]])
+    for op in (('-',) if ver == '1.0' else ('-', '+')):
+        add('neg:' + op, 1, lambda o, op=op: ['neg', op, o[0]])
+    add('pred', 2, lambda o: ['pred', o[0], o[1]])
+    add('call', 1, lambda o: ['call', 'count', [o[0]]])
+    if ver != '1.0':
+        for op in ('instance', 'treat', 'castable', 'cast'):
+            add('type:' + op, 1, lambda o, op=op: ['type', op, o[0], 'xs:integer', ''])
+        add('type:instance*', 1, lambda o: ['type', 'instance', o[0], 'item()', '*'])
+        add('seq', 2, lambda o: ['seq', [o[0], o[1]]])
+        add('if', 3, lambda o: ['if', o[0], o[1], o[2]])
+        add('for', 2, lambda o: ['for', [['x9', o[0]]], o[1]])
+        add('some', 2, lambda o: ['some', [['x9', o[0]]], o[1]])
+        add('every', 2, lambda o: ['every', [['x9', o[0]], ['y9', ['int', '1']]], o[1]])
+    if ver >= '3.0':
+        add('let', 2, lambda o: ['let', [['x9', o[0]]], o[1]])
+        add('dyncall', 2, lambda o: ['dyncall', o[0], [o[1]]])
+        add('inline', 1, lambda o: ['inline', ['p'], o[0]])
+    if ver >= '3.1':
+        add('arrow', 2, lambda o: ['arrow', o[0], ['fname', 'concat'], [o[1]]])
+        add('arrow-var', 1, lambda o: ['arrow', o[0], ['var', 'f'], []])
+        add('lookup', 1, lambda o: ['lookup', o[0], ['ncname', 'k']])
+        add('lookup-paren', 2, lambda o: ['lookup', o[0], ['paren', o[1]]])
+        add('map', 2, lambda o: ['map', [[o[0], o[1]]]])
+        add('sqarr', 2, lambda o: ['sqarr', [o[0], o[1]]])
+        add('curlarr', 1, lambda o: ['curlarr', [o[0]]])
+    return forms
+
+
+_PAIR_LEAVES = (['name', 'a'], ['int', '1'], ['var', 'v'], ['name', 'b'], ['int', '2'])
+
+
+def _rebind(n):
+    """rename the binding variables of the inner form (no re-binding of the outer name in a range expression)"""
+    if isinstance(n, list):
+        return [_rebind(x) for x in n]
+    return {'x9': 'x8', 'y9': 'y8', 'p': 'p8'}.get(n, n) if isinstance(n, str) else n
+
+
+def pair_space(ver):
+    """yield (label, AST): inner form nested in slot k of outer form, all other slots leaves; ASTs that the version's
+    EBNF cannot derive (XPath 1.0 steps) are skipped by the caller when render() raises ValueError"""
+    forms = operator_forms(ver)
+    for oi, (ol, on, ob) in enumerate(forms):
+        for k in range(on):
+            for ii, (il, inn, ib) in enumerate(forms):
+                inner = _rebind(ib([list(_PAIR_LEAVES[(j + ii) % 5]) for j in range(inn)]))
+                ops = [list(_PAIR_LEAVES[(j + oi + 2) % 5]) for j in range(on)]
+                ops[k] = inner
+                yield f'{ol}[{k}]<-{il}', ob(ops)
